@@ -652,8 +652,13 @@ def gen_neox_plan(rng: random.Random, tier: str, *, restarts: float,
     if ckpt_dir:
         for op in clean:
             if op['op'] == 'restart' and rng.random() < 0.15:
+                # F9: the checkpoint directory is gone on the new node; the
+                # load must warn and skip, and the job is only resumable if
+                # the next step updates factors and refreshes
                 op['wipe_dir'] = True
                 op['compute_inverses'] = False
+                hps['factor_update_steps'] = {'c': 1}
+                hps['inv_update_steps'] = {'c': 1}
     plan = {
         'kind': 'neox', 'pipe': pp, 'data': dp, 'model': mp,
         'hidden': mp * rng.randint(1, 3) if mp > 1 else rng.randint(2, 6),
